@@ -368,7 +368,7 @@ def run_property(prop: str, tier: str, seed: int, only: Optional[list[str]] = No
     # 1. regression replays (committed minimal cases: seeded changes, fixed defects)
     regress_dir = os.path.join(VERIF_DIR, "regress", prop)
     n_regress = 0
-    if os.path.isdir(regress_dir):
+    if os.path.isdir(regress_dir) and os.environ.get("VERIF_NO_REGRESS") != "1":
         byname = {c.name: c for c in mod.CLAUSES}
         for fn in sorted(os.listdir(regress_dir)):
             if not fn.endswith(".json"):
